@@ -409,6 +409,17 @@ func C14(tier Tier) int {
 		}); p != nil {
 			ws[wk].Fail(P, "encode", "ESDigitalToken:marshal-to-panic", fmt.Sprintf("MarshalTo panicked: %v", p), "case", fmt.Sprintf("%x", refToken(t)))
 		}
+		// ... and into a buffer that is longer than needed (a pooled / frame buffer): the encoding
+		// occupies the first n bytes
+		roomy := bytes.Repeat([]byte{0xAA}, t.Size()+7)
+		if p := guard(func() {
+			n, err := t.MarshalTo(roomy)
+			if err != nil || n != t.Size() || !bytes.Equal(roomy[:n], refToken(t)) {
+				ws[wk].Fail(P, "encode", "ESDigitalToken:marshal-to-longer-buffer", fmt.Sprintf("MarshalTo into a buffer 7 bytes longer than Size() reports %d bytes %x (err %v), the wire format is %x", n, roomy[:n], err, refToken(t)), "case", fmt.Sprintf("%x", refToken(t)))
+			}
+		}); p != nil {
+			ws[wk].Fail(P, "encode", "ESDigitalToken:marshal-to-panic", fmt.Sprintf("MarshalTo (longer buffer) panicked: %v", p), "case", fmt.Sprintf("%x", refToken(t)))
+		}
 		ws[wk].Case(fmt.Sprintf("token:type%v:valueSign%v:md%v", t.Type != 0, func() interface{} {
 			if t.Value == nil {
 				return "nil"
@@ -428,6 +439,15 @@ func C14(tier Tier) int {
 			}
 			return metaEq(m, b)
 		})
+		roomy := bytes.Repeat([]byte{0xAA}, m.Size()+7)
+		if p := guard(func() {
+			n, err := m.MarshalTo(roomy)
+			if err != nil || n != m.Size() || !bytes.Equal(roomy[:n], refMeta(m)) {
+				ws[wk].Fail(P, "encode", "MetaData:marshal-to-longer-buffer", fmt.Sprintf("MarshalTo into a longer buffer reports %d bytes %x (err %v), the wire format is %x", n, roomy[:n], err, refMeta(m)), "case", fmt.Sprintf("%x", refMeta(m)))
+			}
+		}); p != nil {
+			ws[wk].Fail(P, "encode", "MetaData:marshal-to-panic", fmt.Sprintf("MarshalTo (longer buffer) panicked: %v", p), "case", fmt.Sprintf("%x", refMeta(m)))
+		}
 		ws[wk].Case(fmt.Sprintf("meta:nonce%v:uris%d", m.Nonce != 0, len(m.URIs)))
 		if out != nil && i%11 == 0 {
 			validPer[wk] = append(validPer[wk], out)
